@@ -21,6 +21,7 @@ ONLY_UNDER = {"list_item": "list", "task_list_item": "list", "table_head": "tabl
               "def_list_head": "def_list", "def_list_item": "def_list", "footnote_item": "footnotes", "admonition_title": "admonition",
               "admonition_content": "admonition", "figcaption": "figure", "legend": "figure"}
 BLOCK = BLOCK_INLINE_CHILDREN | BLOCK_BLOCK_CHILDREN | BLOCK_LEAF_RAW | BLOCK_EMPTY | set(BLOCK_SPECIAL)
+RAW_RENDER_TYPES = INLINE_LEAF_RAW | BLOCK_LEAF_RAW      # render_token passes token["raw"] as the first argument
 CONTAINERS_COUNTED = {"block_quote", "list", "block_spoiler"}     # quote/list nesting that max_nested_level limits
 
 
